@@ -31,14 +31,17 @@ WOf(w) == IF w < 0 THEN WUnit ELSE w        \* tree.weight None counts as 1.0
 \* ------------------------------------------------------------ descriptors
 NodeOfSplit(g, s) == CHOOSE x \in Nodes(g) : SplitOf(g, x) = s
 DistinctSplits(g) == \A x, y \in Nodes(g) : x # y => SplitOf(g, x) # SplitOf(g, y)
-AgeOf(g, x) == Max({RootDist(g, y) : y \in Leaves(g) \cap Desc(g, x)}) - RootDist(g, x)
+\* age of a node: distance to a tip below it plus the age of that tip (tip[c]: age * LScale of taxon code c; dated tips
+\* come from SumTrees --tip-ages / taxon_label_age_map, otherwise all 0); the same for every tip of an ultrametric tree
+NoTipAges == [c \in 1..64 |-> 0]
+AgeOf(g, x, tip) == Max({RootDist(g, y) + (IF g.tx[y] > 0 THEN tip[g.tx[y]] ELSE 0) : y \in Leaves(g) \cap Desc(g, x)}) - RootDist(g, x)
 \* TLCEval: TLC would otherwise re-evaluate the (lazy) function bodies at every use
-Descr(g, w) == LET sp == TLCEval([x \in Nodes(g) |-> SplitOf(g, x)])
+Descr(g, w, tip) == LET sp == TLCEval([x \in Nodes(g) |-> SplitOf(g, x)])
                    S == {sp[x] : x \in Nodes(g)}
                    nd == [s \in S |-> CHOOSE x \in Nodes(g) : sp[x] = s]
                IN TLCEval([splits |-> S,
                            len |-> [s \in S |-> L0(g, nd[s])],
-                           age |-> [s \in S |-> AgeOf(g, nd[s])],
+                           age |-> [s \in S |-> AgeOf(g, nd[s], tip)],
                            leafset |-> TreeTx(g), w |-> WOf(w), rooted |-> g.rooted])
 
 \* ------------------------------------------------------------ split distribution
@@ -74,7 +77,8 @@ MedianTwice(b) == LET sq == SortedOfBag(b)  n == Len(sq)                       \
                   IN IF n % 2 = 1 THEN 2 * sq[(n + 1) \div 2] ELSE sq[n \div 2] + sq[n \div 2 + 1]
 
 \* ------------------------------------------------------------ arrays
-NewArray(rooting, set) == [trees |-> <<>>, rooting |-> rooting, set |-> set, splits |-> <<>>, lens |-> <<>>,
+\* dset: the settings of the embedded split distribution, which decide what is collected from a tree that is added
+NewArray(rooting, set) == [trees |-> <<>>, rooting |-> rooting, set |-> set, dset |-> set, splits |-> <<>>, lens |-> <<>>,
                            leafsets |-> <<>>, weights |-> <<>>, dist |-> EmptyDist]
 IsEmpty(a) == Len(a.splits) = 0                       \* len(self) is the length of the split list
 InsertAt(q, i, x) == SubSeq(q, 1, i) \o <<x>> \o SubSeq(q, i + 1, Len(q))       \* before 0-based index i
@@ -91,7 +95,15 @@ OpAddTree(a, t, i, D) ==
                       !.lens = InsertAt(@, i, IF a.set.iel THEN [s \in d.splits |-> -1] ELSE d.len),
                       !.leafsets = InsertAt(@, i, d.leafset),
                       !.weights = InsertAt(@, i, TW(d, a.set)),
-                      !.dist = DistPlus(@, TreeDist(d, a.set))])
+                      !.dist = DistPlus(@, TreeDist(d, a.dset))])
+
+\* read_from_files / read: the sources one after the other, the first `offset` trees of EACH source skipped (burn-in)
+Kept(src, offset) == SubSeq(src, offset + 1, Len(src))
+RECURSIVE AppendAll(_, _, _)
+AppendAll(a, ids, D) == IF ids = <<>> THEN Ok(a)
+                        ELSE LET r == OpAddTree(a, Head(ids), Len(a.trees), D) IN
+                             IF r.raised # "" THEN r ELSE AppendAll(r.st, Tail(ids), D)
+OpReadFiles(a, srcs, offset, D) == AppendAll(a, Flatten([h \in 1..Len(srcs) |-> Kept(srcs[h], offset)]), D)
 
 \* Compatibility of a merge  a <- b.  "intended": an EMPTY array is compatible with everything;
 \* the shipped rules are kept as switches (DESIGN 7, F05/F06).
@@ -108,6 +120,7 @@ MergedRooting(a, b) == IF ~IsEmpty(a) THEN a.rooting ELSE IF b.rooting # -1 THEN
 Concat(a, b, withLeafsets) ==
     [a EXCEPT !.trees = @ \o b.trees, !.rooting = MergedRooting(a, b),
               !.set = IF IsEmpty(a) /\ ~IsEmpty(b) THEN b.set ELSE @,
+              !.dset = IF IsEmpty(a) /\ ~IsEmpty(b) THEN b.dset ELSE @,
               !.splits = @ \o b.splits, !.lens = @ \o b.lens,
               !.leafsets = IF withLeafsets THEN @ \o b.leafsets ELSE @,
               !.weights = @ \o b.weights, !.dist = DistPlus(@, b.dist)]
@@ -141,6 +154,8 @@ Aligned(a, D) ==
 SummaryDependsOnBagOnly(a, D) == a.dist = SummaryOfBag(a.trees, D, a.set)
 \* what calculate_log_product_of_split_supports / restore_tree / split_bitmask_set_frequencies assert
 QueriesEnabled(a) == Len(a.leafsets) = Len(a.splits) /\ Len(a.lens) = Len(a.splits) /\ Len(a.weights) = Len(a.splits)
+\* every array of a sample has the settings of the sample, and so has its embedded distribution - also the result of a merge
+SettingsAre(a, set) == a.set = set /\ a.dset = set
 RootingConsistent(a, D) == \A i \in 1..Len(a.trees) : D[a.trees[i]].rooted = a.rooting
 
 \* ------------------------------------------------------------ derived summaries (judge side)
